@@ -254,6 +254,18 @@ func (r *RigR) oracles() {
 	r.checkTime(delivered)
 	r.checkEvents()
 	r.checkMapping()
+	// a collection that is announced twice is started once: nobody asks for a second subscription of a channel that is
+	// being read (property C13: being notified twice about the same object has no further effect; for the emitted stream it
+	// would mean every message twice)
+	for _, k := range r.mq.DupAttempts {
+		s.Violate("C13", "R_started_twice", "a second subscription of %s was asked for while the first one was open: the collection was started twice", k)
+		s.Violate("C01", "stream_opened_twice", "a second subscription of %s was asked for while the first one was open (every message of the stream would be read twice)", k)
+	}
+	for _, o := range r.ops {
+		if o.op.Kind == "start2" && o.issued {
+			s.Probe("R_second_announcement_checked")
+		}
+	}
 
 	// probes
 	for _, st := range r.mq.All {
